@@ -16,7 +16,7 @@ ASSUMPTIONS = ["scheme candidates whose first character is a digit, '+', '-' or 
                "auto mode compares components through the library's own re-quoters (decided by C01-C05)"]
 
 DELIMS = ":/?#@[]\\"
-TOKENS = [":", "/", "//", "?", "#", "@", "[", "]", "\\", "[::1]", "[v1.x]", "[1.2.3.4]", "[fe80::1%25eth0]", "http", "HTTP", "hTTps", "ws", "file", "mailto", "a", "b1", "1", "+", "-", ".",
+TOKENS = [":", "/", "//", "?", "#", "@", "[", "]", "\\", "[::1]", "[a:b]@", "[v1.x]@", "[::1]@", "u[:]p@", "//[a:b]@h:80", "[v1.x]", "[1.2.3.4]", "[fe80::1%25eth0]", "http", "HTTP", "hTTps", "ws", "file", "mailto", "a", "b1", "1", "+", "-", ".",
           "80", ":80", ":0", ":", " ", "\t", "\n", "\r", "\x00", "\x1f", "\x0b", "%41", "%2f", "\xe9", "x-y.z", "://", "h.example", "H.Example", "u:p@", "u@", ":p@", "@@", "::", "?#", "#?", "..", "."]
 
 
